@@ -94,7 +94,7 @@ def emit_ostep(cfg, st, names=None):
 # ---------------------------------------------------------------------------------------------- generators
 
 def gen_config(rng, n_maps=None, cmode=None, with_exit=None, n_keys=None, offsets=True, actions=None,
-               defaults=True, share=True):
+               defaults=True, share=True, double_bound=True):
     n_maps = n_maps or rng.choice([1, 1, 2, 3])
     n_keys = n_keys or rng.randint(3, 8)
     codes = rng.sample(NOTE_CODES, n_keys)
@@ -122,6 +122,11 @@ def gen_config(rng, n_maps=None, cmode=None, with_exit=None, n_keys=None, offset
         if not pool:
             break
         acts.append({"code": pool.pop(), "action": a})
+    # a key bound BOTH in action_mapping and as a note of some mapping (the factory gamepad configs bind BTN_TL this way): the action
+    # shadows the note - pressing it must not sound, releasing it must not release anything
+    if double_bound and codes and rng.random() < 0.3:
+        c = rng.choice(codes)
+        acts.append({"code": c, "action": rng.choice(["cc_learning", "multinote", "octave_up", "mapping_up", "channel_down", "semitone_down"])})
     exitseq = []
     we = rng.random() < 0.5 if with_exit is None else with_exit
     if we:
